@@ -24,13 +24,13 @@ ASSUMPTIONS = [
 REACH = {"H05": ["h05.offered", "h05.stopped", "h05.end", "h05.reboot-order"]}
 SOURCES = {"P": P, "Q": Q}
 SERVICES = [(0x1000, 1), (0x1000, 2), (0x1001, 1)]  # (service id, instance id); major 1 minor 0
-FILTERS = {"s1": (0x1000, 1, 1, 0), "s1w": (0x1000,), "s2": (0x1001,)}
+FILTERS = {"s1": (0x1000, 1, 1, 0), "s1w": (0x1000,), "s2": (0x1001,), "s1v": (0x1000, 1, 0xFF, 0xFFFFFFFF)}
 
 
 def bounds(tier):
     if tier == "thorough":
         return {"H05": "K<=2 over the full alphabet, K=3 over the medium alphabet (two service instances, two sources, two filters) and K=4 over 6 core events (offer P / offer P with reboot evidence / offer Q / stop P / reboot-only P / watch) with a watch-all listener; TTL symbolic 1..0xFFFFFF (incl. infinite); gaps symbolic 0..2^40 ticks; delivery iteration and batching symbolic; observed when idle after the last event and at the end of time"}
-    return {"H05": "K<=2 over the full alphabet (offer/stop-offer of 3 service instances from 2 sources, with and without reboot evidence, reboot-only message, connection loss, watch(3 filters)/unwatch, watch-all/unwatch-all; initial listener: none | watch-all | wildcard filter) and K=3 over the core alphabet (one service instance, two sources); TTL symbolic 1..0xFFFFFF; gaps 0..2^40 ticks; delivery iteration and batching symbolic; observed when idle after the last event and at the end of time"}
+    return {"H05": "K<=2 over the full alphabet (offer/stop-offer of 3 service instances from 2 sources, with and without reboot evidence, reboot-only message, connection loss, watch(3 filters)/unwatch, watch-all/unwatch-all; plus five histories with two filters for one service instance (watch, watch, unwatch, offer, stop); initial listener: none | watch-all | wildcard filter) and K=3 over the core alphabet (one service instance, two sources); TTL symbolic 1..0xFFFFFF; gaps 0..2^40 ticks; delivery iteration and batching symbolic; observed when idle after the last event and at the end of time"}
 
 
 def _alphabet(nserv, filters, sources="PQ"):
@@ -87,6 +87,17 @@ def cases(tier, seed):
     core4 = [["offer", 0, "P", 0], ["offer", 0, "P", 1], ["offer", 0, "Q", 0], ["stop", 0, "P", 0], ["rebootmsg", "P"], ["watch", "s1w"]]
     plan = [(full, 1), (full, 2), (core, 3)] if tier == "quick" else [(full, 1), (full, 2), (medium, 3), (core4, 4)]
     seen = set()
+    # two filters for the same service instance (differing in the versions they accept):
+    # dropping one registration must not disturb the other
+    off, stp = ["offer", 0, "P", 0], ["stop", 0, "P", 0]
+    for combo in (
+        (["watch", "s1"], ["watch", "s1v"], ["unwatch"], off),
+        (["watch", "s1v"], ["watch", "s1"], ["unwatch"], off),
+        (["watch", "s1"], ["watch", "s1v"], ["unwatch"], off, stp),
+        (["watch", "s1"], ["watch", "s1v"], off, ["unwatch"], stp),
+        (["watch", "s1w"], ["watch", "s1v"], ["unwatch"], off, ["offer", 0, "Q", 0]),
+    ):
+        out.append({"h": "H05", "init": "none", "evs": [list(e) for e in combo], "_w": len(combo)})
     for alpha, k in plan:
         for init in ("none", "all", "s1w"):
             if k >= 3 and tier == "thorough" and init != "all":
